@@ -332,7 +332,10 @@ class Interp:
                 elif v[0] in ("sym", "app", "addr"):
                     # symbolic pointer: a term place (reads give deref terms, `&*p` gives p back)
                     alloc, path = ("T", v), ()
-                elif v[0] in ("top", "valref"):
+                elif v[0] == "valref":
+                    # reference into the (opaque) value of a known object: reads are unknown, the owner is kept
+                    alloc, path = ("V", v[1]), ()
+                elif v[0] == "top":
                     # pointer to opaque data (string constants, user values): reads are unknown
                     alloc, path = ("V", "?"), ()
                 else:
